@@ -74,7 +74,8 @@ def targets(ctx):
         c = _cls_cache.get(py_field)
         if c is None:
             c = dataclasses.make_dataclass(
-                "NameProbe", [(py_field, int, betterproto.int32_field(1)), ("zz_other", str, betterproto.string_field(2))],
+                # the probed field sits between two conventionally named ones (declaration order must not matter)
+                "NameProbe", [("aa_first", int, betterproto.int32_field(3)), (py_field, int, betterproto.int32_field(1)), ("zz_other", str, betterproto.string_field(2))],
                 bases=(betterproto.Message,), eq=False, repr=False)
             if len(_cls_cache) > 5000:
                 _cls_cache.clear()
@@ -110,13 +111,13 @@ def targets(ctx):
                 except Exception as e:  # noqa: BLE001
                     out.append((f"{what}_name_raises", type(e).__name__, f"{r!r}: {e}"))
         py = results.get("field")
-        if py is not None and valid(py) and py != "zz_other":
+        if py is not None and valid(py) and py not in ("zz_other", "aa_first"):
             try:
                 cls = msg_class(py)
                 m = cls(**{py: 7})
                 for casing_name, casing in (("camel", betterproto.Casing.CAMEL), ("snake", betterproto.Casing.SNAKE)):
                     d = m.to_dict(casing)
-                    keys = [k for k in d if k != "zzOther" and k != "zz_other"]
+                    keys = [k for k in d if k not in ("zzOther", "zz_other", "aaFirst", "aa_first")]
                     if len(keys) != 1:
                         out.append(("to_dict_key_missing", casing_name, f"{n!r}: field {py!r} -> dict {d!r}"))
                         continue
